@@ -233,6 +233,7 @@ def run_shard(spec, ctx):
                     except Exception as e:
                         ctx.fail('serialize_raises', case, exc=repr(e))
                         continue
+                    want = key_of(A5Cell(origin=o, segment=seg, S=S, resolution=r))
                     if r <= 29 and ctx.rnd.random() < 0.25:
                         # the same cell described by objects of another provenance: a plain dict, a decoded neighbour that was
                         # edited (update / |= / item assignment / copy) - the id must not depend on how the description was built
@@ -251,6 +252,13 @@ def run_shard(spec, ctx):
                             v4 = ser.deserialize(i)
                             v4['S'] = S
                             variants.append(v4)
+                            d0 = ser.deserialize(i)
+                            if r >= 2:
+                                d0['S'] ^= 1
+                            d0['segment'] = (d0['segment'] + 1) % 5
+                            d0['resolution'] = max(0, r - 1)
+                            if key_of(ser.deserialize(i)) != want or ser.get_resolution(i) != r:
+                                ctx.fail('decoded_cell_is_shared_state', case, id=i)
                             for vi, vv in enumerate(variants):
                                 if ser.serialize(vv) != i:
                                     ctx.fail('id_depends_on_cell_object_provenance', case, variant=vi, got=ser.serialize(vv), want=i)
